@@ -24,7 +24,9 @@ LEVEL_TEXT = ('Every sequence of StopWatch calls up to the stated depth, under '
 LEVEL_NOTE = ('Trusted: the reference stopwatch (vlib/checks/c13.py RefWatch), '
               'that timeutils.now is the only clock read, and that translation '
               'in time is a symmetry for integer readings. Sequences longer '
-              'than the depth and non-integer clock readings are not covered.')
+              'than the depth are not covered; fractional (non-dyadic) readings are explored '
+              'to depth 4 (5) without the symmetry; one search replaces the clock function '
+              'between calls.')
 TECHNIQUE = ('explicit-state BFS over all StopWatch call sequences x clock '
              'steps on the real object, lock-step reference model')
 
@@ -186,7 +188,11 @@ def _impl_apply(w, op):
 def _impl_proj(w):
     """What can be observed of a watch through its public API at the current
     clock reading (no private attribute is consulted): running / stopped,
-    elapsed (or RuntimeError), the splits."""
+    elapsed (or RuntimeError), the splits. The questions are put to a *copy* of
+    the watch: observing is not part of the history, so whatever a query might
+    remember (a cached answer) never reaches the watch under test unless the
+    query is one of the calls of the sequence (they all are in the alphabet)."""
+    w = _clone(w)
     try:
         el = w.elapsed()
     except RuntimeError:
@@ -195,6 +201,25 @@ def _impl_proj(w):
             el, tuple((s.elapsed, s.length) for s in w.splits))
 
 
+
+
+_SCALARS = (int, float, str, bool, type(None))
+
+
+def _clone(w):
+    """Copy of a watch: structural for the shapes a watch is made of (scalars, tuples /
+    lists of Split records or scalars), copy.deepcopy for anything else."""
+    c = copy.copy(w)
+    for k, v in vars(c).items():
+        if isinstance(v, _SCALARS) or callable(v):
+            continue
+        if isinstance(v, (tuple, list)) and all(isinstance(x, _SCALARS) or type(x).__name__ == 'Split'
+                                                 for x in v):
+            if isinstance(v, list):
+                setattr(c, k, list(v))
+            continue
+        return copy.deepcopy(w)
+    return c
 
 
 def _same(a, b):
@@ -231,9 +256,17 @@ def _shadow(node):
 def _step(node, action):
     step, op = action
     now = node.extra + step
-    impl = copy.deepcopy(node.impl)
-    ref = copy.deepcopy(node.ref)
+    impl = _clone(node.impl)
+    ref = copy.copy(node.ref)
+    if getattr(ref, 'shadow', None) not in (None, True):
+        ref.shadow = _clone(ref.shadow)
     _CLOCK[0] = now
+    if getattr(node.ref, 'fresh_clock', False):
+        # the clock seam is timeutils.now *at the time of the call*: every step installs a new
+        # function object that knows only the current reading, so a reference to an
+        # earlier one (kept from construction, say) reads a stale clock
+        from oslo_utils import timeutils
+        timeutils.now = (lambda v: (lambda: v))(now)
     new_hist_node = seq.Node(None, ref, node.hist, None)
     _shadow(new_hist_node)
     try:
@@ -269,6 +302,20 @@ def _step(node, action):
     return new, problem
 
 
+def _canon_abs(node):
+    """Canonical state without the translation symmetry (fractional readings: rounding
+    depends on the absolute values)."""
+    items = []
+    for k, v in sorted(node.impl.__dict__.items()):
+        if k == '_splits' or (isinstance(v, (tuple, list)) and v and hasattr(v[0], 'elapsed')):
+            items.append((k, tuple((s.elapsed, s.length) for s in v)))
+        elif callable(v):
+            items.append((k, 'callable'))
+        else:
+            items.append((k, repr(v)))
+    return (tuple(items), node.extra, node.ref.mono)
+
+
 def _canon(node):
     """Canonical state: every instance attribute of the real object (so hidden
     state is never merged away); numeric attributes are taken relative to the
@@ -281,16 +328,24 @@ def _canon(node):
             continue
         if isinstance(v, (int, float)) and not isinstance(v, bool):
             items.append((k, v - now))
-        elif k == '_splits' or (isinstance(v, tuple) and v and hasattr(v[0], 'elapsed')):
+        elif k == '_splits' or (isinstance(v, (tuple, list)) and v and hasattr(v[0], 'elapsed')):
             items.append((k, tuple((s.elapsed, s.length) for s in v)))
+        elif callable(v):
+            items.append((k, 'callable'))
         else:
             items.append((k, repr(v)))
     return (tuple(items), node.ref.mono)
 
 
+FRAC_STEPS = [0, 0.1, 0.2, 0.7]
+FRAC_ACTIONS = [(s, o) for s in FRAC_STEPS for o in OPS if o not in ('has_started', 'has_stopped', 'enter',
+                                                                    'exit', 'elapsed_max0')]
+
+
 def _explore(job):
     duration, depth, origin = job[:3]
-    shadow = len(job) > 3 and job[3]
+    mode = job[3] if len(job) > 3 else None
+    shadow = mode is True
     timeutils = _install_clock()
     counters = collections.Counter()
     fails = []
@@ -299,14 +354,21 @@ def _explore(job):
     ref.mono = True
     if shadow:
         ref.shadow = True
+    if mode == 'fresh-clock':
+        ref.fresh_clock = True
+        timeutils.now = (lambda v: (lambda: v))(origin)
     root = seq.Node(timeutils.StopWatch(duration), ref, (), origin)
 
     def on_fail(node, action, problem):
-        fails.append({'duration': duration, 'origin': origin, 'shadow': bool(shadow),
+        fails.append({'duration': duration, 'origin': origin, 'shadow': bool(shadow), 'mode': mode,
                       'history': [list(a) for a in node.hist + (action,)],
                       'problem': problem})
 
-    n = seq.bfs([root], ACTIONS, _step, _canon, depth, on_fail, counters)
+    if mode == 'fractional':
+        n = seq.bfs([root], FRAC_ACTIONS, _step, _canon_abs, depth, on_fail, counters)
+    else:
+        n = seq.bfs([root], ACTIONS, _step, _canon, depth, on_fail, counters)
+    _install_clock()
     return duration, dict(counters), fails[:50], n
 
 
@@ -401,6 +463,12 @@ def run(ctx):
     jobs += [(d, depth, o) for o in (0, -2) for d in (None, 2)]
     # the same search with a second watch being used in between (instance isolation)
     jobs += [(2, depth - 1, 100, True), (None, depth - 1, 0, True)]
+    # readings that are not dyadic: 0.1 + 0.2 != 0.3, so "elapsed", "leftover" and "expired"
+    # must be computed the way the statement defines them (from the same elapsed value)
+    jobs += [(d, 4 if not ctx.thorough else 5, o, 'fractional') for d in (0.2, 0.3, 0.5, 0.1)
+             for o in (0.1, 0.2)]
+    # the clock function is replaced between calls
+    jobs += [(2, depth - 1, 100, 'fresh-clock'), (None, depth - 2, 0, 'fresh-clock')]
     res = par.pmap(_explore, jobs)
     for duration, counters, fails, nstates in res:
         rep.counters.update({k: v for k, v in counters.items()
@@ -414,9 +482,13 @@ def run(ctx):
             cls = '%s:%s' % (f['problem']['kind'], f['history'][-1][1])
             if f.get('shadow'):
                 cls = 'with-a-second-watch-in-use:' + cls
+            if f.get('mode') in ('fractional', 'fresh-clock'):
+                cls = {'fractional': 'fractional-readings:',
+                       'fresh-clock': 'clock-function-replaced-between-calls:'}[f['mode']] + cls
             rep.fail(cls, dict(f['problem'], clock_origin=f.get('origin', 100)),
                      {'duration': duration, 'history': f['history'],
-                      'origin': f.get('origin', 100), 'shadow': f.get('shadow', False)})
+                      'origin': f.get('origin', 100), 'shadow': f.get('shadow', False),
+                      'mode': f.get('mode') if isinstance(f.get('mode'), str) else None})
     tick_jobs = [(d, t, 4 if ctx.thorough else 3) for d in (2.0, 0.5, None) for t in (0.25, 1.0)]
     for n, probs in par.pmap(_tick_job, tick_jobs):
         rep.count('ticking_clock_histories', n)
@@ -473,6 +545,9 @@ def replay(payload):
     _CLOCK[0] = origin
     if payload.get('shadow'):
         ref.shadow = True
+    if payload.get('mode') == 'fresh-clock':
+        ref.fresh_clock = True
+        timeutils.now = (lambda v: (lambda: v))(origin)
     node = seq.Node(timeutils.StopWatch(payload['duration']), ref, (), origin)
     trace = []
     for step, op in payload['history']:
@@ -480,5 +555,7 @@ def replay(payload):
         trace.append({'clock': node.extra, 'op': op,
                       'impl_state': _impl_proj(node.impl), 'problem': problem})
         if problem is not None:
+            _install_clock()
             return {'violates': True, 'trace': trace}
+    _install_clock()
     return {'violates': False, 'trace': trace}
